@@ -188,13 +188,35 @@ impl Property for C06 {
         "C06"
     }
     fn rule(&self) -> String {
-        "types of nesting depth <= 2 over the tower classes, Str, NoneType, Never, Obj, the traits Eq/Ord/Hash/Show/Num/PartialOrd, integer/string enums, integer intervals, immutable containers ([T; n], List(T), (T, U), {Str: T}, {T; n}), unions and intersections. The judgement `S <: T` is observed as acceptance of `g(x: S): T = x`. Laws: reflexivity; Never <: T <: Obj; T <: (T or U) and U <: (T or U); (T and U) <: T and <: U; enum/interval below the class of its values; every pair of the numeric tower; transitivity over chains built from documented steps up (tower, union introduction, intersection elimination, enum to class, enum growth, top), over chains through candidate class-to-trait and supertrait steps, and over random triples (conclusion required only when both premises were accepted). Non-trivial = law instance judged on a type that is not a bare class (or any transitivity instance with both premises accepted); distinct by case".into()
+        "types of nesting depth <= 2 over the tower classes, Str, NoneType, Never, Obj, the traits Eq/Ord/Hash/Show/Num/PartialOrd, integer/string enums, integer intervals, immutable containers ([T; n], List(T), (T, U), {Str: T}, {T; n}), unions and intersections. The judgement `S <: T` is observed as acceptance of `g(x: S): T = x`. Laws: reflexivity; Never <: T <: Obj; T <: (T or U) and U <: (T or U); (T and U) <: T and <: U; enum/interval below the class of its values; every pair of the numeric tower; transitivity over chains built from documented steps up (tower, union introduction, intersection elimination, enum to class, enum growth, top), over chains through candidate class-to-trait and supertrait steps, over random triples, and exhaustively over all triples (class, trait, trait) and (class, class, trait) of atoms (conclusion required only when both premises were accepted). Non-trivial = law instance judged on a type that is not a bare class (or any transitivity instance with both premises accepted); distinct by case".into()
     }
     fn strategy(&self, _tier: Tier) -> BoxedStrategy<Case> {
         (0u8..10, prop_oneof![2 => atom().boxed(), 3 => ty().boxed()], ty(), ty(), any::<u32>(), any::<u32>()).prop_map(|(law, a, b, c, s1, s2)| Case { law: if law >= 6 { 6 } else { law }, a, b, c, s1, s2 }).boxed()
     }
     fn cases(&self, tier: Tier) -> usize {
         tier.pick(3_000, 60_000)
+    }
+    /// transitivity over every (class of the tower or Str, trait, trait) and (class, class, trait) triple of atoms
+    fn fixed_cases(&self, _tier: Tier) -> Vec<Case> {
+        let mut v = vec![];
+        let classes: Vec<T> = (0u8..6).map(T::Tower).chain(std::iter::once(T::Class(0))).collect();
+        for a in &classes {
+            for t1 in 0u8..6 {
+                for t2 in 0u8..6 {
+                    if t1 != t2 {
+                        v.push(Case { law: 6, a: a.clone(), b: T::Trait(t1), c: T::Trait(t2), s1: 0, s2: 0 });
+                    }
+                }
+            }
+            for b in &classes {
+                if a != b {
+                    for t in 0u8..6 {
+                        v.push(Case { law: 6, a: a.clone(), b: b.clone(), c: T::Trait(t), s1: 0, s2: 0 });
+                    }
+                }
+            }
+        }
+        v
     }
     fn mode(&self) -> Mode {
         Mode::Workers
